@@ -150,8 +150,111 @@ theorem c04_too_few_points (model : K → K) (cpk : K) (w : Option K) (k : K) (n
   rw [fitOut_neg _ _ _ _ _ _ _ _ _ he]
   refine ⟨rfl, ?_, ?_, rfl⟩ <;> intro v hv <;> simp at hv <;> exact hv.2.symm
 
+/-- the weights *rise*: a point farther from the contact point never weighs less -/
+theorem c04_weights_monotone (cp wd x x' : K) (h : 0 < wd) (hx : |x - cp| ≤ |x' - cp|) :
+    cpWeight cp wd x ≤ cpWeight cp wd x' := by
+  have hdiv : |x - cp| / wd ≤ |x' - cp| / wd := div_le_div_of_nonneg_right hx h.le
+  unfold cpWeight
+  split
+  · rename_i h1
+    have : |x' - cp| / wd > 1 := lt_of_lt_of_le h1 hdiv
+    simp [this]
+  · rename_i h1
+    split
+    · exact not_lt.mp h1
+    · exact hdiv
+
+/-- the weights depend on the distance to the contact point only (same on both sides) -/
+theorem c04_weights_symmetric (cp wd d : K) : cpWeight cp wd (cp + d) = cpWeight cp wd (cp - d) := by
+  unfold cpWeight
+  have : |cp + d - cp| = |cp - d - cp| := by
+    rw [add_sub_cancel_left, sub_sub_cancel_left, abs_neg]
+  rw [this]
+
+/-- weighting never enlarges a residual: pointwise the weighted square is at most the
+unweighted one, with equality from the weighting distance on -/
+theorem c04_weighted_sq_le (model : K → K) (wd cp x y : K) (h : 0 < wd) :
+    resid model (some wd) cp x y * resid model (some wd) cp x y ≤
+      resid model none cp x y * resid model none cp x y := by
+  obtain ⟨h0, h1⟩ := c04_weights_range cp wd x h
+  simp only [resid]
+  have hw : cpWeight cp wd x * cpWeight cp wd x ≤ 1 := by
+    calc cpWeight cp wd x * cpWeight cp wd x ≤ 1 * 1 := mul_le_mul h1 h1 h0 zero_le_one
+      _ = 1 := one_mul 1
+  have hsq : 0 ≤ (y - model x) * (y - model x) := mul_self_nonneg _
+  calc (y - model x) * cpWeight cp wd x * ((y - model x) * cpWeight cp wd x)
+      = (y - model x) * (y - model x) * (cpWeight cp wd x * cpWeight cp wd x) := by ring
+    _ ≤ (y - model x) * (y - model x) * 1 := mul_le_mul_of_nonneg_left hw hsq
+    _ = (y - model x) * (y - model x) := mul_one _
+
+theorem sum_sq_nonneg (l : List K) : 0 ≤ (l.map (fun r => r * r)).sum := by
+  induction l with
+  | nil => simp
+  | cons a l ih => simpa using add_nonneg (mul_self_nonneg a) ih
+
+theorem sum_sq_eq_zero (l : List K) : (l.map (fun r => r * r)).sum = 0 ↔ ∀ r ∈ l, r = 0 := by
+  induction l with
+  | nil => simp
+  | cons a l ih =>
+    simp only [List.map_cons, List.sum_cons, List.mem_cons, forall_eq_or_imp]
+    constructor
+    · intro h
+      have h1 : a * a = 0 := by
+        have := sum_sq_nonneg l; have := mul_self_nonneg a; linarith
+      have h2 : (l.map (fun r => r * r)).sum = 0 := by rw [h1, zero_add] at h; exact h
+      exact ⟨mul_self_eq_zero.mp h1, ih.mp h2⟩
+    · rintro ⟨h1, h2⟩
+      rw [h1, ih.mpr h2]; simp
+
+/-- chi-square of a successful fit is never negative, and it is zero exactly when every
+residual over the points used vanishes -/
+theorem c04_chisq_nonneg (model : K → K) (cpk : K) (w : Option K) (k : K) (nv : Nat)
+    (seg used : List Bool) (xs ys : List K)
+    (hs : (fitOut model cpk w k nv seg used xs ys).success = true) :
+    ∃ c, (fitOut model cpk w k nv seg used xs ys).chiSqr = some c ∧ 0 ≤ c ∧
+      (c = 0 ↔ ∀ r ∈ select used (resVals model cpk w k xs ys), r = 0) := by
+  refine ⟨_, c04_chisq model cpk w k nv seg used xs ys hs, sum_sq_nonneg _, sum_sq_eq_zero _⟩
+
+theorem select_sum_sq_le (used : List Bool) (a b : List K)
+    (h : List.Forall₂ (fun p q => p * p ≤ q * q) a b) :
+    ((select used a).map (fun r => r * r)).sum ≤ ((select used b).map (fun r => r * r)).sum := by
+  induction h generalizing used with
+  | nil => cases used <;> simp [select]
+  | cons hpq _ ih =>
+    cases used with
+    | nil => simp [select]
+    | cons m ms =>
+      cases m
+      · simpa [select] using ih ms
+      · simpa [select] using add_le_add hpq (ih ms)
+
+theorem resVals_forall₂ (model : K → K) (cpk wd k : K) (h : 0 < wd) (xs ys : List K) :
+    List.Forall₂ (fun p q => p * p ≤ q * q) (resVals model cpk (some wd) k xs ys)
+      (resVals model cpk none k xs ys) := by
+  unfold resVals
+  induction xs generalizing ys with
+  | nil => simp
+  | cons x xs ih =>
+    cases ys with
+    | nil => simp
+    | cons y ys =>
+      simp only [List.map_cons, List.zipWith_cons_cons]
+      exact List.Forall₂.cons (c04_weighted_sq_le model wd cpk (k * x) y h) (ih ys)
+
+/-- **weighting never increases chi-square**: over the same points and at the same parameters the
+weighted sum of squares is bounded by the unweighted one -/
+theorem c04_chisq_weighted_le (model : K → K) (cpk wd k : K) (h : 0 < wd)
+    (used : List Bool) (xs ys : List K) :
+    ((select used (resVals model cpk (some wd) k xs ys)).map (fun r => r * r)).sum ≤
+      ((select used (resVals model cpk none k xs ys)).map (fun r => r * r)).sum :=
+  select_sum_sq_le used _ _ (resVals_forall₂ model cpk wd k h xs ys)
+
+
 /-! non-vacuity (ℚ) -/
 example : cpWeight (0 : ℚ) 2 1 = 1 / 2 ∧ cpWeight (0 : ℚ) 2 5 = 1 ∧ cpWeight (0 : ℚ) 2 0 = 0 := by
   refine ⟨?_, ?_, ?_⟩ <;> norm_num [cpWeight]
+
+example : cpWeight (0 : ℚ) 2 1 ≤ cpWeight (0 : ℚ) 2 (-3) ∧ cpWeight (0 : ℚ) 2 (0 + 1) = cpWeight (0 : ℚ) 2 (0 - 1) := by
+  refine ⟨?_, ?_⟩ <;> norm_num [cpWeight]
 
 end Nanite.C04
